@@ -669,6 +669,10 @@ C18Case genCase(uint64_t runSeed, const TierCfg &cfg) {
                         op.fault.seed = rng.u64();
                 }
             }
+            // what the thread did just before: the same function on "nearby" arguments.  A per-thread hint or memo
+            // (thread-local, so no shared memory is involved) that is trusted too far shows as a result that
+            // depends on this history
+            if (!op.fault.kind && rng.chance(op.tag == "near-icosa-edge" ? 0.8 : 0.2)) prog.push_back(gen.primerFor(op));
             prog.push_back(op);
         }
         cs.progs.push_back(prog);
